@@ -230,6 +230,16 @@ theorem capacity_invariant (es : List Event) (s : MState) (h : Inv s) : Inv (es.
   | nil => exact h
   | cons e es ih => exact ih _ (step_inv s e h)
 
+/-- **no capacity leaks**: along every history, once every grant has been handed back — each `done` returning the amount it
+was granted, which `procs_returned_once` and `procs_same_amount` (T2) read off `(*bigmachineExecutor).Run` — every machine
+has exactly 0 procs booked (what the end-to-end sub-check observes on real sessions). -/
+theorem idle_means_zero (es : List Event) (s : MState) (h : Inv s) (hidle : (es.foldl step s).grants = []) :
+    ∀ p ∈ (es.foldl step s).machs, p.1.used = 0 := by
+  intro p hp
+  have := ((capacity_invariant es s h).1 p hp).1
+  rw [this, hidle]
+  rfl
+
 /-- An exclusive request (clamped to the whole machine) is granted only on an idle machine. -/
 theorem exclusive_alone (r : Req) (m : Mach) (hcap : m.used ≤ m.max) (hex : r.procs = m.max)
     (hpos : 0 < m.max) (hfit : r.procs ≤ m.free) : m.used = 0 := by
